@@ -156,7 +156,9 @@ pub fn code_rest(push_state: &mut PushState, _instruction_cache: &InstructionCac
             items.pop();
             push_state.code_stack.push(Item::List { items: items });
         }
-        _ => (),
+        // not a list: the result is the empty list
+        Some(_) => push_state.code_stack.push(Item::empty_list()),
+        None => (),
     }
 }
 
